@@ -31,6 +31,9 @@ var c11Messages = func() []string {
 	long := "connection to upstream service timed out after the configured deadline; retrying with backoff #"
 	msgs := []string{"a", "b", "", "request failed", "\xff", "request failed: A", "request failed: B", long + "1", long + "2", "x" + long, "y" + long,
 		// non-ASCII and invalid UTF-8: the key is the message's BYTES ("\xff" and "\xfe" are different messages)
+		// long messages that differ only after a long common prefix (the key is the WHOLE message)
+		strings.Repeat("p", 255) + "A", strings.Repeat("p", 255) + "B", strings.Repeat("q", 300) + "1", strings.Repeat("q", 300) + "2",
+		strings.Repeat("long prefix ", 500) + "x", strings.Repeat("long prefix ", 500) + "y", strings.Repeat("r", 70000) + "a", strings.Repeat("r", 70000) + "b",
 		"\xfe", "\xff\xfe", "\xfe\xff", "é", "ü", "日本語", "日本誤", "e\u0301", "\xc3\x28", "\xed\xa0\x80"}
 	seen := map[uint32]string{}
 	for _, m := range msgs {
@@ -183,7 +186,7 @@ func propC11Sequential(t *rapid.T) {
 			want = 1
 		}
 		desc := func() string {
-			return fmt.Sprintf("entry %d (level %d, msg %q bucket %d, t=%d, sampler %d) with first=%d thereafter=%d tick=%d wrapped threshold %d", i, int8(lvl), msg, refBucket(msg), now, which, n, m, tick, int8(th))
+			return fmt.Sprintf("entry %d (level %d, msg %q bucket %d, t=%d, sampler %d) with first=%d thereafter=%d tick=%d wrapped threshold %d", i, int8(lvl), clipS(msg), refBucket(msg), now, which, n, m, tick, int8(th))
 		}
 		if got != want {
 			t.Fatalf("%s: forwarded %d entries to the wrapped core, model says %d", desc(), got, want)
